@@ -220,7 +220,11 @@ Definition phase2 (o : oracle) (total : N) (hdr : bytes) (fds1 : list fd) (st1 :
   let st2 := set_arb (dropN to_take (arb st1)) st1 in
   read_to o (S (length (strm st2))) total bytes2 fds1 st2.
 
-(* #[cfg(unix)] if !already_received_fds.is_empty() { ... } *)
+(* #[cfg(unix)] if !already_received_fds.is_empty() { ... }      (as repaired by fix: e5b20c34)
+     num_pending = num_required_fds.checked_sub(fds.len()).ok_or(ExcessData)?;
+     if num_pending > already_received_fds.len() { return Err(MissingParameter) }
+     fds = already_received_fds.drain(..num_pending) ++ fds
+   A message that needs none of the buffered descriptors (num_pending = 0) leaves them for a later buffered message. *)
 Definition fds_block (pf : parse_fields) (ph : phdr) (bytes : bytes) (fds : list fd) (st : rstate)
   : rstate * res rerr (list fd) :=
   match arfds st with
@@ -234,8 +238,7 @@ Definition fds_block (pf : parse_fields) (ph : phdr) (bytes : bytes) (fds : list
           if required <? lenN fds then (st, Err EExcess)                  (* checked_sub *)
           else
             let num_pending := required - lenN fds in
-            if num_pending =? 0 then (st, Err EMissing)                  (* "Missing file descriptors" *)
-            else if lenN (arfds st) <? num_pending then (st, Panic PSlice)   (* drain(..num_pending) out of range *)
+            if lenN (arfds st) <? num_pending then (st, Err EMissing)     (* "Missing file descriptors" *)
             else (set_arfds (dropN num_pending (arfds st)) st, Ok (takeN num_pending (arfds st) ++ fds))
       end
   end.
